@@ -202,6 +202,8 @@ class Ctx:
         self.work = WORKROOT / prop
         shutil.rmtree(self.work, ignore_errors=True)
         self.work.mkdir(parents=True, exist_ok=True)
+        if not replay:
+            shutil.rmtree(VERIF / "replays" / prop, ignore_errors=True)   # replay files always belong to the latest run
         self.violations = []       # (replay_path, text, no_failing_input)
         self.known = []            # (finding_id, text)
         self.level = "proof"
